@@ -334,6 +334,9 @@ class Models:
             k = obj.kind
             if isinstance(k, Map):
                 ke = eng.coerce(idx, k.key, st)
+                if eng.no_prune:
+                    yield st, V(k.val, z3.Select(k.valarr(obj.term), ke.term))
+                    return
                 for st1, ok in eng.fork(st, z3.Select(k.dom(obj.term), ke.term), f"key@{node.lineno}"):
                     if ok:
                         yield st1, V(k.val, z3.Select(k.valarr(obj.term), ke.term))
@@ -346,6 +349,9 @@ class Models:
                 n = z3.Length(obj.term) if k == STR else k.len(obj.term)
                 i = z3.If(idx.term < 0, n + idx.term, idx.term)
                 i = z3.simplify(i)
+                if eng.no_prune:
+                    yield st, (V(STR, z3.SubString(obj.term, i, 1)) if k == STR else V(k.elem, k.at(obj.term, i)))
+                    return
                 for st1, ok in eng.fork(st, z3.And(i >= 0, i < n), f"index@{node.lineno}"):
                     if ok:
                         if k == STR:
@@ -503,6 +509,9 @@ class Models:
         """Set view of a sequence: fresh array constrained by two universally quantified facts."""
         elem = v.kind.elem
         es = elem.sort()
+        mkey = ("seq_to_set", v.term.get_id())
+        if mkey in st.memo:
+            return st.memo[mkey]
         S = z3.Const(fresh_name("setof"), z3.ArraySort(es, z3.BoolSort()))
         idx = z3.Function(fresh_name("idxof"), es, z3.IntSort())
         i = z3.Const(fresh_name("i"), z3.IntSort())
@@ -512,8 +521,8 @@ class Models:
         st.assume(z3.ForAll([i], z3.Implies(z3.And(0 <= i, i < n), z3.Select(S, at(i))), patterns=[at(i)]))
         st.assume(z3.ForAll([x], z3.Implies(z3.Select(S, x), z3.And(0 <= idx(x), idx(x) < n, at(idx(x)) == x)),
                             patterns=[z3.Select(S, x)]))
-        st.assume(z3.Select(S, x) == z3.Select(S, x))
-        return V(SetK(elem), S)
+        st.memo[mkey] = V(SetK(elem), S)
+        return st.memo[mkey]
 
     # ------------------------------------------------------------------ methods on library values
     def method(self, eng, recv, name, args, kwargs, st, node):
